@@ -7,6 +7,7 @@ package main
 //    running maximum (admissibility).   R3 weights/totals.   R4 symmetric links.
 
 import (
+	"strings"
 	"fmt"
 	"go/ast"
 	"go/token"
@@ -19,6 +20,7 @@ const gonumPath = "gonum.org/v1/gonum/graph/path"
 
 func checkC19(c *Ctx) {
 	c.Rule("C19.R1", "at every call of gonum path.AStar the static type of the graph argument implements path.Weighted (Weight(xid, yid int64) (float64, bool)) — the optional interface AStar asserts before falling back to unit edge costs")
+	c.Rule("C19.R5", "a query does not write the network: no function reachable from ShortestRoute inside the package assigns to a Network field, to a map or slice held by the network, or to package-level state (the answer is a function of the links and the two points, not of earlier queries)")
 	c.Rule("C19.R2", "in the heuristic passed to AStar, a network field used as divisor of a distance is maintained as a running maximum of link speeds (stores guarded by new > old or math.Max; initial value not above any speed); every value the heuristic returns is 0, the straight-line distance between the two nodes (when minimising distance) or that distance over the maximum speed (when minimising time) — the only estimates here that are lower bounds of every route's cost")
 	c.Rule("C19.R3", "the weight of an edge is its time or length field according to the option switch (no numeric default); a link's time is its length divided by the speed argument; the route loop visits every consecutive node pair and sums length and time of the very edge it appends")
 	c.Rule("C19.R4", "every store neighbors[a][b] = e is paired with neighbors[b][a] = e")
@@ -134,6 +136,8 @@ func checkC19(c *Ctx) {
 	}
 	c19weights(c, info, p, netT)
 	c19symmetric(c, info, p)
+	c19queryPure(c, info, p, netT)
+	c.Floor("C19.R5", 1)
 	c.Floor("C19.R1", 1)
 	c.Floor("C19.R2", 3)
 	c.Floor("C19.R3", 3)
@@ -441,6 +445,27 @@ func c19weights(c *Ctx, info *types.Info, p *pkgT, netT *types.Named) {
 		if msg == "" && !(sums["distance+="+lengthField] && sums["time+="+timeField]) {
 			msg = "the totals do not add the appended link's length to distance and its time to time"
 		}
+		// the route and the two totals are written by this loop only
+		if msg == "" {
+			results := map[types.Object]bool{}
+			for _, rv := range resultVars(info, sfd.Type) {
+				if rv != nil && (rv.Name() == "distance" || rv.Name() == "time" || isNamed(rv.Type(), modPath, "MultiLineString")) {
+					results[rv] = true
+				}
+			}
+			ast.Inspect(sfd.Body, func(n ast.Node) bool {
+				as, ok := n.(*ast.AssignStmt)
+				if !ok || (as.Pos() >= l.Body.Pos() && as.End() <= l.Body.End()) {
+					return true
+				}
+				for _, lh := range as.Lhs {
+					if o := objOf(info, lh); o != nil && results[o] && msg == "" {
+						msg = "`" + src(as) + "` overwrites `" + o.Name() + "` outside the loop over the route's links: the reported total is no longer the sum over the returned links (for unconnected nodes the search cost is +Inf while the route is empty)"
+					}
+				}
+				return true
+			})
+		}
 	}
 	if msg == "" {
 		c.OK("C19.R3", c.P.FuncName(sr)+"#totals", sfd.Pos(), "every consecutive pair; appended link's %s and %s summed", lengthField, timeField)
@@ -614,5 +639,104 @@ func c19heuristicReturns(c *Ctx, info *types.Info, p *pkgT, h *types.Func, fd *a
 	})
 	if n == 0 {
 		c.Unk("C19.R2", c.P.FuncName(h)+"#returns", fd.Pos(), "the heuristic has no return statement")
+	}
+}
+
+// c19queryPure: ShortestRoute and everything it reaches in the package leave the network untouched.
+func c19queryPure(c *Ctx, info *types.Info, p *pkgT, netT *types.Named) {
+	sr := c.P.Method("route", "Network", "ShortestRoute")
+	if sr == nil || c.P.Decl(sr) == nil {
+		c.Unk("C19.R5", "route.(Network).ShortestRoute", token.NoPos, "API anchor does not resolve")
+		return
+	}
+	seen := map[*types.Func]bool{}
+	var order []*types.Func
+	var visit func(f *types.Func)
+	visit = func(f *types.Func) {
+		if f == nil || seen[f] || c.P.Decl(f) == nil || c.P.DeclPkg(f) != p {
+			return
+		}
+		seen[f] = true
+		order = append(order, f)
+		ast.Inspect(c.P.Decl(f).Body, func(n ast.Node) bool {
+			switch x := n.(type) {
+			case *ast.CallExpr:
+				visit(callee(info, x))
+			case *ast.SelectorExpr:
+				// method values such as net.costHeuristic handed to the search
+				if sl := info.Selections[x]; sl != nil && sl.Kind() == types.MethodVal {
+					if m, ok := sl.Obj().(*types.Func); ok {
+						visit(m)
+					}
+				}
+			}
+			return true
+		})
+	}
+	visit(sr)
+	// the graph adapter methods gonum calls back
+	if ms := types.NewMethodSet(types.NewPointer(netT)); ms != nil {
+		for i := 0; i < ms.Len(); i++ {
+			if m, ok := ms.At(i).Obj().(*types.Func); ok {
+				switch m.Name() {
+				case "Weight", "From", "Edge", "Node", "Nodes", "HasEdgeBetween", "Has":
+					visit(m)
+				}
+			}
+		}
+	}
+	nWrites := 0
+	for _, f := range order {
+		fd := c.P.Decl(f)
+		recv := receiverVar(info, fd)
+		rootIsState := func(e ast.Expr) (string, bool) {
+			for {
+				switch x := unparen(e).(type) {
+				case *ast.SelectorExpr:
+					if o := objOf(info, x.X); o != nil && o == recv && recv != nil && named(recv.Type()) == netT {
+						return src(x), true
+					}
+					e = x.X
+					continue
+				case *ast.IndexExpr:
+					e = x.X
+					continue
+				case *ast.StarExpr:
+					e = x.X
+					continue
+				case *ast.Ident:
+					if v, ok := objOf(info, x).(*types.Var); ok && v.Pkg() != nil && v.Parent() == v.Pkg().Scope() {
+						return "package-level " + v.Name(), true
+					}
+				}
+				return "", false
+			}
+		}
+		ast.Inspect(fd.Body, func(n ast.Node) bool {
+			var lhs []ast.Expr
+			switch x := n.(type) {
+			case *ast.AssignStmt:
+				if x.Tok == token.DEFINE {
+					return true
+				}
+				lhs = x.Lhs
+			case *ast.IncDecStmt:
+				lhs = []ast.Expr{x.X}
+			case *ast.CallExpr:
+				if builtinName(info, x) == "delete" && len(x.Args) > 0 {
+					lhs = []ast.Expr{x.Args[0]}
+				}
+			}
+			for _, l := range lhs {
+				if what, ok := rootIsState(l); ok {
+					nWrites++
+					c.Unk("C19.R5", fmt.Sprintf("%s#writes:%s", c.P.FuncName(f), what), l.Pos(), "`%s` is executed while answering a query and changes %s: the route returned may then depend on which queries were asked before (a search tree computed for one destination is final only for that destination), which this analysis cannot exclude", strings.SplitN(src(n), "\n", 2)[0], what)
+				}
+			}
+			return true
+		})
+	}
+	if nWrites == 0 {
+		c.OK("C19.R5", "route.(Network).ShortestRoute#no-writes", c.P.Decl(sr).Pos(), "%d functions reachable from the query; none assigns to the network or to package-level state", len(order))
 	}
 }
